@@ -227,6 +227,9 @@ class SpecEval:
                 o = self.term(n.args[0]); return SV(self.st.H("alloc", B)[o.v], BOOL)
             if name == "fresh":      # allocated during the call
                 o = self.term(n.args[0]); return SV(z3.And(self.st.H("alloc", B)[o.v], z3.Not(self.old.H("alloc", B)[o.v])), BOOL)
+            if name == "bitand_nz":
+                a = self.term(n.args[0]); b = self.term(n.args[1])
+                return SV(z3.Function("bitand", I, I, I)(a.v, b.v) != 0, BOOL)
             if name == "is_instance":
                 o = self.term(n.args[0]); k = self.term(n.args[1])
                 return SV(z3.Function("dyn_isinstance_of", Ref, Ref, B)(o.v, k.v), BOOL)
